@@ -279,6 +279,37 @@ fn c09_one<T: Pixel>(cfg: YuvConfig, colors: &[[f32; 3]], worst: &mut Worst<C9At
             return 0;
         }
     };
+    // the image the library encoded has unpadded planes; present the same samples in a frame whose
+    // planes are padded differently (other strides and origins per plane) for half of the configurations
+    let yuv: Yuv<T> = if (cfg.bit_depth as usize + cfg.matrix_coefficients as usize) % 2 == 0 {
+        let pads = [(0usize, 17usize, 0usize), (3, 0, 32), (17, 1, 7)][(cfg.bit_depth % 3) as usize];
+        let mut g: Frame<T> = Frame {
+            planes: [
+                Plane::new(w, h, 0, 0, pads.0, pads.0),
+                Plane::new(w >> ssx, h >> ssy, ssx as usize, ssy as usize, pads.1, pads.1),
+                Plane::new(w >> ssx, h >> ssy, ssx as usize, ssy as usize, pads.2, pads.2),
+            ],
+        };
+        for pl in 0..3 {
+            let (pw, ph) = if pl == 0 { (w, h) } else { (w >> ssx, h >> ssy) };
+            let stride = g.planes[pl].cfg.stride;
+            let d = g.planes[pl].data_origin_mut();
+            for y in 0..ph {
+                for xx in 0..pw {
+                    d[y * stride + xx] = yuv.data()[pl].p(xx, y);
+                }
+            }
+        }
+        match Yuv::new(g, cfg) {
+            Ok(y) => y,
+            Err(e) => {
+                ev::violation(format!("C09|repadded-frame-rejected|{sigbase}"), format!("{e:?}"), case("repad"));
+                return 0;
+            }
+        }
+    } else {
+        yuv
+    };
     let x = match Xyb::try_from(&yuv) {
         Ok(x) => x,
         Err(e) => {
